@@ -1,4 +1,5 @@
 //! C19 — runs are reproducible; machines and parser objects do not leak state.
+use crate::asm::{AsmErr, Assembled, Session};
 use crate::ast::*;
 use crate::c01::{BLABELS, WLABELS};
 use crate::c09::{rand_ins, CLASSES};
@@ -394,6 +395,84 @@ const NOISE_PROGRAMS: [&str; 8] = [
     "w: dw 7\nstart: mov al, word w\n",
 ];
 
+/// everything a program's meaning depends on, in one comparable text
+fn summary(r: Result<(), AsmErr>, a: Assembled) -> String {
+    match r {
+        Err(e) => format!("ERR {:?}", e),
+        Ok(()) => {
+            let mut labels: Vec<String> = a.labels.iter().map(|(k, v)| format!("{}={:?}", k, v)).collect();
+            labels.sort();
+            let mut fns: Vec<String> = a.fn_map.iter().map(|(k, v)| format!("{}={}", k, v)).collect();
+            fns.sort();
+            let mut map: Vec<(usize, usize)> = a.source_map.iter().map(|(k, v)| (*k, *v)).collect();
+            map.sort();
+            format!("OK code={:?} data={:?} labels={:?} fns={:?} undefined={:?} map={:?}", a.code, a.data, labels, fns, a.undefined, map)
+        }
+    }
+}
+
+/// A context that went through other programs -- accepted ones and every kind of refused one, in particular refusals
+/// raised deep inside macro expansions -- and was then clear()ed must treat the next program like a fresh context.
+fn context_reuse(rep: &Report, rounds: usize, seed: u64) {
+    par_for(rounds, 1, |i| {
+        let core = i < 40;
+        let mut rng = if core { Rng::new(0xC19D).fork(i as u64) } else { Rng::new(seed).fork(0xC19D_0000 + i as u64) };
+        let noises: Vec<String> = vec![
+            crate::c15::macro_chain(129),
+            crate::c15::macro_chain(130),
+            crate::c15::macro_chain(140),
+            crate::c15::macro_chain(128),
+            "macro a(p) -> mov p,ax <-\nstart:\nmov bx,1\na(5)\n".into(),
+            "macro inner(p) -> mov al,p <-\nmacro outer(p) -> mov bx,1 inner(p) <-\nL1:\nstart:\nouter(300)\n".into(),
+            "macro a(p) -> b(p) <-\nmacro b(p) -> a(p) <-\nstart:\na(1)\n".into(),
+            "start:\nnosuch(5)\n".into(),
+            "x: dw [7,40000]\ny: dw [7,40000]\nstart:\n".into(),
+            "macro j2(a,b) -> jmp a jmp b <-\nstart:\nj2(nowhere, later)\nlater:\n".into(),
+            "def helper { inc ax }\nmacro bad(p) -> mov p,p,p <-\ndone:\nstart:\nbad(1)\n".into(),
+        ];
+        let mut sess = Session::new();
+        let mut hist: Vec<String> = Vec::new();
+        for _ in 0..1 + rng.below(4) {
+            let n = if rng.chance(3, 4) {
+                noises[rng.below(noises.len())].clone()
+            } else if rng.chance(1, 2) {
+                NOISE_PROGRAMS[rng.below(NOISE_PROGRAMS.len())].to_string()
+            } else {
+                rand_program_any(&mut rng, 6).render_plain().text
+            };
+            let r = sess.parse(&n);
+            hist.push(format!("{} -> {}", &n[..n.len().min(60)].replace('\n', "\\n"), if r.is_ok() { "accepted" } else { "refused" }));
+            sess.clear();
+        }
+        let probes: Vec<String> = vec![
+            crate::c15::macro_chain(5),
+            crate::c15::macro_chain(127),
+            "start:\nmov ax,1\n".into(),
+            "start:\ncall helper\n".into(),
+            "mov ax,1\njmp done\n".into(),
+            "macro a(p) -> mov ax,p <-\nmacro inner(p) -> inc p <-\nstart:\na(7)\ninner(bx)\njmp later\nmov cx,3\nlater:\n".into(),
+            PROBE_PROGRAMS[i % PROBE_PROGRAMS.len()].to_string(),
+        ];
+        let probe = &probes[i % probes.len()];
+        let r_used = sess.parse(probe);
+        let used = summary(r_used, sess.finish());
+        let mut f = Session::new();
+        let r_fresh = f.parse(probe);
+        let fresh = summary(r_fresh, f.finish());
+        rep.eval(1);
+        rep.count("context-reuse probes (assembler context after clear)", 1);
+        rep.distinct_str(&format!("ctx|{}|{}", i % probes.len(), &fresh[..fresh.len().min(3)]));
+        if used != fresh {
+            rep.fail(Failure {
+                sig: format!("reuse:context-after-clear:{}", if fresh.starts_with("OK") && used.starts_with("ERR") { "valid-program-refused" } else if fresh.starts_with("ERR") && used.starts_with("OK") { "invalid-program-accepted" } else { "different-result" }),
+                what: "C19: an assembler context that processed other programs and was clear()ed treats a program differently from a fresh context".into(),
+                witness: format!("{{\"kind\": \"reuse\", \"history\": {:?}, \"probe\": {}, \"fresh\": {}, \"used\": {}}}", hist, json_str(probe), json_str(&fresh[..fresh.len().min(400)]), json_str(&used[..used.len().min(400)])),
+                core_item: if core { Some(format!("{}", i)) } else { None },
+            });
+        }
+    });
+}
+
 fn parser_reuse(rep: &Report, rounds: usize, seed: u64) {
     par_for(rounds, 1, |i| {
         let core = i < 8;
@@ -668,6 +747,7 @@ pub fn run(rep: &Report) {
     repeated_runs(rep, if t { 3000 } else { 160 }, 8, rep.seed);
     interleavings(rep, if t { 60_000 } else { 1500 }, rep.seed);
     parser_reuse(rep, if t { 1500 } else { 48 }, rep.seed);
+    context_reuse(rep, if t { 6000 } else { 140 }, rep.seed);
     fresh_machines(rep, if t { 2000 } else { 100 }, rep.seed);
     threads(rep, if t { 200 } else { 6 }, rep.seed);
     rep.floor("CLI runs compared", rep.counter("CLI runs compared"), 1000);
